@@ -95,6 +95,10 @@ bool Json::Private::readToken()
             {
             case '\0':
               return syntaxError(pos, "Unexpected end of file"), false;
+            case '\r':
+            case '\n':
+              value.append('\\'); // the line break itself is consumed (and counted) by the string loop
+              break;
             case '"':
             case '\\':
             case '/':
